@@ -172,17 +172,18 @@ fn ops_case(sink: &mut Sink, idx: u64, kind: &str, ops: &[Op], probe: &[&str]) {
     if !sink.wants(idx) {
         return;
     }
-    let mut obs = run_ops(ops, probe);
-    // owned and borrowed keys must behave alike; when they do not, the deviating run is judged
+    let obs = run_ops(ops, probe);
+    // owned and borrowed keys must behave alike; when they do not, both runs are judged and the case
+    // gets the worse verdict (`vworst`, Base/Worst.v)
     let borrowed = run_ops_borrowed(ops, probe);
+    let input = format!("{} {}", clist(ops.iter(), cop), clist(probe.iter(), |p| cstr(p)));
+    let mut judge = format!("judge_ops {input} [{}]", obs.join("; "));
     if borrowed != obs {
         sink.bump("keys:borrowed-differs-from-owned");
-        obs = borrowed;
+        judge = format!("vworst ({judge}) (judge_ops {input} [{}])", borrowed.join("; "));
     } else {
         sink.bump("keys:borrowed-agrees-with-owned");
     }
-    let input = format!("{} {}", clist(ops.iter(), cop), clist(probe.iter(), |p| cstr(p)));
-    let judge = format!("judge_ops {input} [{}]", obs.join("; "));
     // non-trivial: some name occurs at least twice in the inserted history
     let mut names: Vec<&String> = vec![];
     for op in ops {
